@@ -57,9 +57,11 @@ func newBucketing(pubRaw []byte) bucketing {
 }
 
 // index of the bucket that contains instant x (Unix ms), and that bucket's start.
-func (b bucketing) indexOf(xMs int64) int64  { return floorDiv(xMs-b.offMs, b.perMs) }
-func (b bucketing) startOf(idx int64) int64  { return b.offMs + idx*b.perMs }
-func (b bucketing) servedIndex(t time.Time) int64 { return b.indexOf(floorDiv(t.UnixNano(), 1e6) - b.skewMs) }
+func (b bucketing) indexOf(xMs int64) int64 { return floorDiv(xMs-b.offMs, b.perMs) }
+func (b bucketing) startOf(idx int64) int64 { return b.offMs + idx*b.perMs }
+func (b bucketing) servedIndex(t time.Time) int64 {
+	return b.indexOf(floorDiv(t.UnixNano(), 1e6) - b.skewMs)
+}
 
 // tie: t-skew is exactly a bucket start; the rollover timer is due at exactly this instant, and both
 // the outgoing and the incoming certificate satisfy the statement.
@@ -298,7 +300,7 @@ func buildTrace(rng *rand.Rand, bk bucketing, idx int64, bnd, dl, rollovers int,
 
 type traceResult struct {
 	samples, rollovers, restarts, ties, fresh, nearBoundary int
-	retroNext, retroConfirm, restartUnconfirmed              int
+	retroNext, retroConfirm, restartUnconfirmed             int
 }
 
 type complaint struct {
@@ -314,6 +316,8 @@ type tracer struct {
 	samples  []*sample
 	res      traceResult
 	problems []complaint
+	flaky    *flakyKey // host key whose Raw() fails once (virtual-time traces only)
+	failAt   int
 }
 
 func (tr *tracer) complain(at time.Time, sig, format string, a ...any) {
@@ -444,6 +448,9 @@ func (tr *tracer) run(t0 time.Time, steps []step) error {
 	if err != nil {
 		return err
 	}
+	if tr.flaky != nil {
+		tr.flaky.arm(tr.failAt)
+	}
 	gen := 0
 	defer func() {
 		if m != nil {
@@ -470,7 +477,11 @@ func (tr *tracer) run(t0 time.Time, steps []step) error {
 		}
 		// "certificates are a deterministic function of the host key and the time bucket": a manager
 		// started fresh at t must serve what the long-running one serves at t.
-		f, err := tr.clk.newManager(tr.key)
+		fk := tr.key
+		if tr.flaky != nil {
+			fk = tr.flaky.PrivKey // the comparison manager gets the plain key
+		}
+		f, err := tr.clk.newManager(fk)
 		if err != nil {
 			return err
 		}
@@ -502,8 +513,14 @@ func (tr *tracer) run(t0 time.Time, steps []step) error {
 			if err := tr.clk.advance(st.t); err != nil {
 				return err
 			}
+			if tr.flaky != nil {
+				tr.flaky.disarm()
+			}
 			if m, err = tr.clk.newManager(tr.key); err != nil {
 				return err
+			}
+			if tr.flaky != nil && tr.flaky.firedCount() == 0 {
+				tr.flaky.arm(1)
 			}
 			gen++
 			tr.res.restarts++
@@ -620,6 +637,11 @@ func managerCases(r *run.R) {
 		var err error
 		// one trace in eight runs on the production clock (clock.New()) in virtual time instead of the mock
 		virtual := ti%8 == 5 && t0.After(bubbleEpoch)
+		if virtual && ki%2 == 0 && rollovers > 0 {
+			// ... half of them with a host key whose Raw() fails once, at one of the rollovers' derivations
+			tr.flaky = &flakyKey{PrivKey: k.key}
+			tr.key, tr.failAt = tr.flaky, 1+rng.IntN(rollovers)
+		}
 		if virtual {
 			res := run.Bubble(r.T, func(*testing.T) {
 				bd := bubbleDriver{}
@@ -660,6 +682,10 @@ func managerCases(r *run.R) {
 		r.Count("mgr_retro_next_checks", res.retroNext)
 		r.Count("mgr_retro_confirm_checks", res.retroConfirm)
 		r.Count("mgr_restart_prev_address_unconfirmed", res.restartUnconfirmed)
+		if tr.flaky != nil {
+			r.Count("mgr_traces_with_a_flaky_host_key", 1)
+			r.Count("mgr_certificate_derivations_failed_once", tr.flaky.firedCount())
+		}
 		r.Count("mgr_start_"+boundaryNames[bnd], 1)
 		r.Count("mgr_traces_rollovers_"+fmt.Sprint(rollovers), 1)
 		if res.rollovers > 0 || res.restarts > 0 {
